@@ -183,6 +183,9 @@ int main(int argc, char** argv) {
         if (rnd.nextInt(6) == 0) {
             // games that go on past the 50-move mark (nobody has to claim the draw): clocks up to 160 reach every consumer of the clock
             int h = 90 + rnd.nextInt(40);
+            // ... and the width boundaries of whatever holds the clock on the way (a signed / unsigned byte): 126..131, 200..250
+            int wide = rnd.nextInt(3);
+            if (wide == 0) h = 126 + rnd.nextInt(6); else if (wide == 1 && rnd.nextInt(2) == 0) h = 200 + rnd.nextInt(51);
             pos.setHalfMoveClock(h);
             pos.setFullMoveCounter(std::max(pos.getFullMoveCounter(), h / 2 + 2));
         }
